@@ -201,4 +201,64 @@ theorem primeRegexElement_eq (p : Nat) (b : Bool) : primeRegexElement = (primeOp
   show primeRegexElement = "[0-9]*"
   decide
 
+/-! ### pattern assembly is total
+
+  The parsers assemble their pattern from the regenerated part lists through an environment that
+  resolves the non-literal operands by their Go source text.  The following theorems show that with
+  the current part lists every operand is resolved, for every variable name and every field record:
+  the `none` ("unsupported pattern") branches of `Bin.parse`, `UPoly.stringToMap`,
+  `BPoly.stringToMap`, `binRegexElement`, `extRegexElement` can only be reached through
+  `Regex.compile`.  A renamed operand in the Go source changes `Gen/Consts.lean` and breaks them. -/
+
+theorem bin_pattern_assembles (v : String) :
+    assemble (fun e => if e == "regexp.QuoteMeta(f.varName)" then some (quoteMeta v) else none)
+        Gen.binElemPattern =
+      some ("\\s*(?:^|\\+|-)\\s*" ++ ("(" ++ ("(?:0|1)" ++ ("|" ++ (quoteMeta v ++
+        ("(?:\\^?([0-9]+))?" ++ ")\\s*")))))) := by
+  simp [assemble, Gen.binElemPattern]
+
+theorem binRegexElement_eq (v : String) (rp : Bool) :
+    binRegexElement v rp =
+      let term := "(?:[0-9]*(?:" ++ (v ++ "(?:\\^?[0-9]+)?)|[0-9]+)")
+      let more := "(?:" ++ ("\\s*(?:\\+|-)\\s*" ++ (term ++ ")*"))
+      if rp then "(?:\\(\\s*" ++ (term ++ (more ++ ("\\s*\\)|" ++ (term ++ ")")))) else term ++ more := by
+  cases rp <;>
+  simp [binRegexElement, regexElement, assemble, Gen.binRegex_termPattern, Gen.binRegex_moreTerms,
+    Gen.binRegex_noParens, Gen.binRegex_parens]
+
+theorem extRegexElement_eq (v : String) (rp : Bool) :
+    extRegexElement v rp =
+      let term := "(?:[0-9]*(?:" ++ (v ++ "(?:\\^?[0-9]+)?)|[0-9]+)")
+      let more := "(?:" ++ ("\\s*(?:\\+|-)\\s*" ++ (term ++ ")*"))
+      if rp then "(?:\\(\\s*" ++ (term ++ (more ++ ("\\s*\\)|" ++ (term ++ ")")))) else term ++ more := by
+  cases rp <;>
+  simp [extRegexElement, regexElement, assemble, Gen.extRegex_termPattern, Gen.extRegex_moreTerms,
+    Gen.extRegex_noParens, Gen.extRegex_parens]
+
+theorem uni_pattern_assembles {α} (F : FOps α) (v : String) :
+    assemble (fun e =>
+        if e == "field.RegexElement(true)" then some (F.regex true)
+        else if e == "regexp.QuoteMeta(*varName)" then some (quoteMeta v) else none) Gen.uniPattern =
+      some ("\\s*(?P<sign>\\+|-)?\\s*" ++ ("(?P<coef>" ++ (F.regex true ++ (")?" ++ ("\\s*\\*?\\s*" ++
+        ("(?:" ++ ("(?P<var>(?i:" ++ (quoteMeta v ++ ("))" ++ ("\\^?(?P<deg>[0-9]*)" ++
+        ")?\\s*")))))))))) := by
+  simp [assemble, Gen.uniPattern]
+
+theorem biv_xOrY_assembles (x y : String) :
+    assemble (fun e =>
+      if e == "regexp.QuoteMeta((*varNames)[0])" then some (quoteMeta x)
+      else if e == "regexp.QuoteMeta((*varNames)[1])" then some (quoteMeta y) else none) Gen.bivXOrY =
+      some (quoteMeta x ++ ("|" ++ quoteMeta y)) := by
+  simp [assemble, Gen.bivXOrY]
+
+theorem biv_pattern_assembles {α} (F : FOps α) (xy : String) :
+    assemble (fun e =>
+        if e == "qr.baseField.RegexElement(true)" then some (F.regex true)
+        else if e == "xOrY" then some xy else none) Gen.bivPattern =
+      some ("(?P<sign>^|\\+|-)\\s*" ++ ("(?:" ++ ("(?P<coef>" ++ (F.regex true ++ (")?" ++
+        ("\\s*\\*?\\s*" ++ ("(?P<var1>(?i:" ++ (xy ++ ("))\\^?(?P<deg1>[0-9]*)" ++ ("(?:" ++
+        ("\\s*\\*?\\s*" ++ ("(?P<var2>(?i:" ++ (xy ++ ("))?\\^?(?P<deg2>[0-9]*)" ++ (")?\\s*" ++
+        ("|" ++ ("(?P<coefOnly>" ++ (F.regex true ++ (")\\s*" ++ ")"))))))))))))))))))) := by
+  simp [assemble, Gen.bivPattern]
+
 end Algobra.GenTies
